@@ -226,22 +226,29 @@ impl<'a> ExecutionEngine<'a> {
 
             if let Some(joined_table_data) = self.joined_table_data.as_ref() {
                 let aggregate_execution_engine = &mut self.aggregate_execution_engine;
-                Ok(
-                    execute_join(
-                        table_definition,
-                        &row,
-                        &line_value,
-                        aggregate_statement.join.as_ref().unwrap(),
-                        joined_table_data,
-                        false,
-                        |column_provider| {
-                            aggregate_execution_engine.execute(
-                                aggregate_statement,
-                                column_provider
-                            )
-                        }
-                    )?
-                )
+                let joined = execute_join(
+                    table_definition,
+                    &row,
+                    &line_value,
+                    aggregate_statement.join.as_ref().unwrap(),
+                    joined_table_data,
+                    false,
+                    |column_provider| {
+                        aggregate_execution_engine.execute_update(
+                            aggregate_statement,
+                            column_provider
+                        )?;
+
+                        Ok(None)
+                    }
+                )?.joined;
+
+                // One result for the line, after all its joined rows have been applied
+                if joined {
+                    Ok(ExecutionOutput::joined(Some(aggregate_execution_engine.execute_result(aggregate_statement)?)))
+                } else {
+                    Ok(ExecutionOutput::empty())
+                }
             } else {
                 let aggregate_execution_engine = &mut self.aggregate_execution_engine;
                 Ok(
